@@ -25,7 +25,7 @@ ASSUMPTIONS = [
     "powers limited to -3..3 (plus the explicit ^1 form); prefixes and units are the library's tables, "
     "read from the statement (21 x 31), not from the code",
     "floating point: factor compared with the exact Fraction to relative 1e-12",
-    "sanitizer idempotence asserted on unit strings and their decorated spellings, not on arbitrary text",
+    "sanitizer: unit strings with decorated spellings, and every string of length <= 5 (thorough 6) over {blank, m, u, micro signs, V, s, *}",
 ]
 
 PREFIX_EXP = {"": 0, "y": -24, "z": -21, "a": -18, "f": -15, "p": -12, "n": -9, "u": -6,
@@ -100,6 +100,8 @@ def cases(tier):
     yield {"k": "junk"}
     for u in UNITS:
         yield {"k": "sanitize", "unit": u}
+    for ch in SAN_ALPHA:
+        yield {"k": "sanitize-strings", "first": ch, "n": 6 if tier == "thorough" else 5}
 
 
 def call(fn, *a):
@@ -319,8 +321,40 @@ def run_sanitize(case, r):
     r.outcomes.add("sanitize")
 
 
+SAN_ALPHA = [" ", "m", "u", "\u00b5", "\u03bc", "V", "s", "*"]
+
+
+def run_sanitize_strings(case, r):
+    """every string of length <= n over {blank, m, u, both micro signs, V, s, *} that starts with case["first"]:
+    the clean-up is idempotent, leaves neither blanks nor micro signs, and - where no spelled-out 'mu' arises -
+    is exactly 'remove blanks, map micro signs to u'"""
+    import itertools
+    first = case["first"]
+    for n in range(0, case["n"]):
+        for rest in itertools.product(SAN_ALPHA, repeat=n):
+            d = first + "".join(rest)
+            r.evals += 1
+            r.nontrivial += 1
+            st, once = call(U.sanitizer, d)
+            if st != "ok":
+                r.viol("C09|sanitizer|strings|raises", "sanitizer(%r) raises %s" % (d, st), {"unit": d})
+                return
+            st2, twice = call(U.sanitizer, once)
+            if st2 != "ok" or twice != once:
+                r.viol("C09|sanitizer|strings|not-idempotent", "sanitizer(sanitizer(%r)) = %r != sanitizer(%r) = %r" % (d, twice, d, once), {"unit": d})
+                return
+            if " " in once or "\u00b5" in once or "\u03bc" in once:
+                r.viol("C09|sanitizer|strings|blank-or-micro-sign-left", "sanitizer(%r) = %r" % (d, once), {"unit": d})
+                return
+            simple = d.replace(" ", "").replace("\u00b5", "u").replace("\u03bc", "u")
+            if "mu" not in simple and once != simple:
+                r.viol("C09|sanitizer|strings|wrong-cleanup", "sanitizer(%r) = %r, expected %r" % (d, once, simple), {"unit": d})
+                return
+    r.outcomes.add("sanitize-strings")
+
+
 def run_case(case):
     r = R()
     {"atomic": run_atomic, "pairs": run_pairs, "cross": run_cross, "triples": run_triples,
-     "compound": run_compound, "junk": run_junk, "sanitize": run_sanitize}[case["k"]](case, r)
+     "compound": run_compound, "junk": run_junk, "sanitize": run_sanitize, "sanitize-strings": run_sanitize_strings}[case["k"]](case, r)
     return r
